@@ -1,6 +1,8 @@
 # -*- coding: utf-8 -*-
 """Structured generators: frames, messages split into ETB/ETX frames, sessions, corruptions."""
 
+import re
+
 STX, ETX, EOT, ENQ, ACK, NAK, ETB, LF, CR = (bytes([x]) for x in (2, 3, 4, 5, 6, 0x15, 0x17, 10, 13))
 FRAMING = set([2, 3, 0x17, 10])   # bytes excluded from generated frame text (CR is the record separator)
 HEXU = "0123456789ABCDEF"
@@ -191,9 +193,51 @@ def unit(rng, kind):
 PROBE = [("d", ENQ), ("d", frame(1, b"P|1", True)), ("d", EOT), ("d", ENQ), ("d", frame(2, b"L|1|N", True)), ("d", EOT)]
 
 
+MINI_TAGS = ["pi", "pn", "pb", "ps", "so", "si", "ci", "rt", "rn", "tt", "td", "ql", "qn", "y3", "qd", "nc", "id", "sn", "m4"]
+_HEX = b"0123456789abcdefABCDEF"
+
+
+def is_mini_line(d):
+    """reference recogniser of the miniVidas line format, written from the format's description and independent of
+    the adapter: STX, optionally RS 'mt' value, then any subset of the optional tags in their fixed order, each as
+    '|' RS tag value (values free of '|'), then '|' GS and two hex digits at the very end (a final newline is
+    tolerated like `$` does)"""
+    if d.endswith(b"\n"):
+        d = d[:-1]
+    if not d.startswith(b"\x02") or len(d) < 5:
+        return False
+    if d[-4:-2] != b"|\x1d" or d[-2] not in _HEX or d[-1] not in _HEX:
+        return False
+    body = d[1:-4]
+    items = body.split(b"|") if body else []
+    # the pieces between the bars: the first one may be the mt item or (when mt is absent) must be empty
+    if not items:
+        return True
+    first, rest = items[0], items[1:]
+    if first and not first.startswith(b"\x1emt"):
+        return False
+    pos = -1
+    for it in rest:
+        if len(it) < 3 or it[:1] != b"\x1e":
+            return False
+        tag = it[1:3].decode("latin-1")
+        if tag not in MINI_TAGS or MINI_TAGS.index(tag) <= pos:
+            return False
+        pos = MINI_TAGS.index(tag)
+    return True
+
+
+_SPOT_REF = re.compile(
+    rb"\x02(\d{2}/\d{2}/\d{2})\s+(\d{2}:\d{2})\s+ID#\s*([A-Z0-9\-_]+)\s+\[(.*?)\]\s+"
+    rb"Na\s+([\d.]+)\s+(mmol/L)\s+K\s+([\d.]+)\s+(mmol/L)\s+Cl\s+([\d.]+)\s+(mmol/L)\s*\x03")
+
+
+def is_spot_line(d):
+    """reference recogniser of the Spotchem SE-1520 line format (the format's contract, kept here on purpose as a
+    copy that does not follow the adapter)"""
+    return _SPOT_REF.match(d) is not None
+
+
 def is_vendor_line(d):
-    """units claimed by a vendor adapter are the subject of C18, not of C01-C03"""
-    import re
-    from senaite.astm.adapters.biomerieux import mini_vidas
-    from senaite.astm.adapters.spotchem import se1520
-    return re.match(mini_vidas.RX, d) is not None or re.match(se1520.RX, d) is not None
+    """units in a vendor line format are the subject of C18, not of C01-C03"""
+    return is_mini_line(d) or is_spot_line(d)
